@@ -229,6 +229,8 @@ def drive(sess, script, max_rounds=600):
             k, mark = waiting
             if reply_complete(sess.client_out.get(k, b"")[mark:]) and len(sess.client_out.get(k, b"")) > mark:
                 waiting = None
+            elif k in sess.closed_clients:
+                waiting = None                   # the daemon has closed this client: nothing more will come
         if sleep_until is not None and r.now >= sleep_until:
             sleep_until = None
         # non-blocking script steps
@@ -257,8 +259,11 @@ def drive(sess, script, max_rounds=600):
                 conns = sess.dev_conns.get(step[1], [])
                 if conns:
                     evs.append("EOF %s" % conns[-1][0])
-        if waiting is None and sleep_until is None and i >= len(script) and not evs:
-            return True                          # script done (the daemon may still have timers: pings, back-off)
+        if waiting is None and sleep_until is None and i >= len(script) and not evs and r.ready == 0:
+            settle = getattr(sess, "_settle", 0) + 1
+            sess._settle = settle
+            if settle >= 3 or r.timeout != 0:
+                return True                      # script done and nothing in flight (timers may remain: pings, back-off)
         # the clock: events happen now; without events the daemon sleeps its full time-out
         if r.ready > 0:
             adv = 0                                  # something is ready already: poll returns at once
